@@ -152,6 +152,12 @@ pub fn coord_alphabet() -> Vec<f64> {
         11.154_026, 43.727_012_5, 11.328_939_5, 43.832_545_5, 11.241_482_7, 43.779_779, 179.999_999_95, -179.999_999_95,
         0.1, 0.2, 0.3, 1.0 / 3.0, 12.345_678_9, -12.345_678_95, 100.000_000_05, 33.333_333_35,
     ];
+    // values that are stored as k by a truncating and by a rounding writer alike; 6.5 % of the k then do not
+    // survive read -> write under truncation (k/1e7 * 1e7 falls just below k)
+    for k in 1..=150 {
+        v.push((f64::from(k) + 0.3) / 1e7);
+        v.push(-(f64::from(k * 7_919 + 3) + 0.3) / 1e7);
+    }
     for k in 0..40 {
         v.push((f64::from(k) + 0.5) / 1e7);
         v.push(-(f64::from(k) + 0.5) / 1e7);
